@@ -873,7 +873,7 @@ def run():
             runs = []
             exh_cfgs = [("structure", dict(STRUCT, maxa=3, maxb=1, taba='{"std","alt"}') if thorough
                          else dict(STRUCT, polb='{"balanced","max-bundle"}')),
-                        ("parameters", dict(PARAMS, maxa=2, maxadd=1) if thorough else PARAMS)]
+                        ("parameters", dict(PARAMS, maxa=2) if thorough else PARAMS)]
             if thorough:
                 exh_cfgs.append(("parameters-answerer", dict(PARAMS_B, maxb=2)))
                 exh_cfgs.append(("structure-answerer", dict(STRUCT, maxa=2, maxb=2, maxaddans=1,
